@@ -380,4 +380,5 @@ def run(ctx):
     if ctx.tier == "thorough":
         from vlib import witness
         out.append(witness.rule("C16", ['OptionalNeedsOption', 'OptionalNullableNeedsOption', 'UnknownKeysRejected', 'IncompatibleCombinationsRejected', 'UnsupportedItemRejected', 'UnusualIdentifiersExpand', 'DefaultedGenericsExpand'], "C16.R6"))
+    out.append(T.type_param_walker_rule(ctx.syn, "C16"))
     return out
